@@ -14,5 +14,6 @@ def check(ctx):
     indexing.data_index_state(ctx, 'C05-R6')
     accounting.ncomp_rewritten(ctx, 'C05-R7')
     separation.remerge_bookkeeping(ctx, 'C05-R8')
+    accounting.split_when_counted(ctx, 'C05-R9')
     ctx.undecided += ['that scikit-learn returns one label per row; that every mixture component is populated '
                       '(run-time assert in layer.ncomp_from_gmm); that k sub-components give k layers numerically']
